@@ -23,6 +23,7 @@ import Rooc.Proofs.BuilderHistLemmas
 import Rooc.Proofs.ComposeSolver
 import Rooc.Proofs.TextTwin
 import Rooc.Proofs.PipesLemmas
+import Rooc.Gen.PipeTable
 import Rooc.Proofs.ComposeSolverExamples
 import Rooc.Proofs.ComposeExamples
 import Rooc.Proofs.Compose
@@ -595,6 +596,16 @@ theorem builtin_spec {P : Type} (k : PipeKind) (f : P → Option P) (t : DataTy)
   · intro h; simp [builtin, h]
   · intro h; subst h; simp only [builtin, bne_self_eq_false, Bool.false_eq_true, if_false]
     cases k.output <;> cases f p <;> rfl
+
+/-- THE TIE TO THE SOURCE: the typing table of the model is the table `tools/extract.py` re-reads from
+`pipe/pipe_executors.rs` on every run (`Rooc/Gen/PipeTable.lean`: for each `impl Pipeable`, the `as_X()?` it reads, the
+`PipeableData` variant it returns, the `PipeError` variant it wraps its failure in) — a pipe added, removed or rewired in
+the Rust source makes this proof obligation fail. -/
+theorem pipe_table_agrees : Pipes.modelTable = Gen.pipeTable := by decide +kernel
+
+/-- likewise the `format!` string of `add_vars` member names, which `Builder.familyName` implements. -/
+theorem familyName_format : Gen.familyNameFormat = "{name}_{i}" ∧
+    ∀ (name : String) (i : Nat), familyName name i = name ++ "_" ++ toString i := ⟨by decide +kernel, fun _ _ => rfl⟩
 
 /-- the preset the doors use — `Compiler, PreModel, Model, LinearModel, AutoSolver` — is well typed: from a `String` it
 yields the six data `String, Parser, PreModel, Model, LinearModel, MILPSolution` when no stage function fails. -/
